@@ -40,8 +40,8 @@
   All declarations live in the sub-namespaces `MV.HDM.C18`, `MV.NNSP.C18`, `MV.NNDVI.C18` (other
   property files define their own `Op` / `Rel` / `trace` in the parent namespaces).
 
-  kdq-tree: there is no Model/KdqTree.lean in this library yet, so `build_perm` / `fill_perm` /
-  `kdq_divergence_perm` of DESIGN §7 C18 are NOT proved here (nothing is stated about kdq-tree).
+  kdq-tree: `build_perm` / `fill_perm` / `kl_distance_perm` and the KdqTreeBatch decision traces are proved in
+  `Props/C18Kdq.lean` (over `Model/KdqTree.lean`, `Model/KdqDetect.lean`).
 -/
 import MenelausVerif.Model.HDM
 import MenelausVerif.Model.NNSP
